@@ -195,8 +195,9 @@ Section Oracle.
     destruct (new_stable _ _ _ _ Hnew) as (Hok & S1 & S2 & C1 & C2).
     pose proof (load_saved cap _ _ _ _ S1 S2 Hi Hnd Hp) as HL.
     unfold cfg_ok in Hok. apply andb_true_iff in Hok. destruct Hok as [Hv Hc].
+    apply andb_true_iff in Hc. destruct Hc as [Hc Hb]. apply negb_true_iff in Hb.
     eexists. split.
-    - unfold new. rewrite Hv, Hc. simpl.
+    - unfold new. rewrite Hv, Hc, Hb. simpl.
       destruct st; [| |congruence]; rewrite HL; simpl; rewrite C1, C2; simpl; reflexivity.
     - simpl. repeat split; auto.
       rewrite bindings_restored. unfold acked_bindings.
